@@ -36,6 +36,8 @@ fn payload_env(p: u8) -> LayerEnv {
     e
 }
 fn payload_result(p: u8, src: &Path) -> LayerResult<Meta> {
+    // payload 2: a bare result - no environment, no exec.d programs, no SBOMs ("the layer then has none")
+    if p == 2 { return LayerResultBuilder::new(Meta { version: format!("v{p}"), checksum: format!("c{p}") }).build_unwrapped(); }
     let mut b = LayerResultBuilder::new(Meta { version: format!("v{p}"), checksum: format!("c{p}") }).env(payload_env(p));
     if p == 1 { b = b.exec_d_program("one", src.join("prog-a")).exec_d_program("two", src.join("prog-b")).sbom(Sbom::from_bytes(SbomFormat::CycloneDxJson, b"cdx-1".to_vec())); }
     else { b = b.exec_d_program("zero", src.join("prog-b")).sbom(Sbom::from_bytes(SbomFormat::SpdxJson, b"spdx-0".to_vec())).sbom(Sbom::from_bytes(SbomFormat::SyftJson, b"syft-0".to_vec())); }
@@ -69,6 +71,7 @@ type Tree = BTreeMap<PathBuf, String>;
 fn tree(p: &Path) -> Tree { if p.exists() { snapshot(p, &[]).into_iter().map(|(k, d, _m)| (k, d)).collect() } else { Tree::new() } }
 // what the API should leave for a payload: written by the real writers into a scratch layer (env) and stated directly (the rest)
 fn expected_env_tree(p: u8) -> (Tree, Tree, Tree) {
+    if p == 2 { return (Tree::new(), Tree::new(), Tree::new()); }
     let t = tempfile::tempdir().unwrap();
     payload_env(p).write_to_layer_dir(t.path()).unwrap();
     (tree(&t.path().join("env")), tree(&t.path().join("env.build")), tree(&t.path().join("env.launch")))
@@ -77,13 +80,13 @@ fn expected_env_tree(p: u8) -> (Tree, Tree, Tree) {
 pub fn layers(thorough: bool) -> Report {
     let depth = if thorough { 3 } else { 2 };
     let mut r = Report::new(
-        "witness search on a real tempdir: every sequence of `depth` trait-API handle_layer calls over {strategy keep/update/recreate} x {migration recreate/replace} x {two result payloads: env for all four scopes incl. per-process, exec.d sets, SBOM sets, metadata} x {two type sets}, each preceded by {nothing, cache restore, launch-only restore (directory gone, toml kept), layer vanished, metadata rewritten in an unparsable shape}: call-back log (create/update exactly when due, create handed an empty directory), on-disk layer (types, metadata, env directories byte-equal to what the real writer produces for the returned env, exec.d programs, SBOM files, files written by the call-backs), returned LayerData equal to a fresh read, sibling layer untouched; non-trivial = sequences with a restore or corrupt step",
+        "witness search on a real tempdir: every sequence of `depth` trait-API handle_layer calls over {strategy keep/update/recreate} x {migration recreate/replace} x {three result payloads: two with env for all four scopes incl. per-process, exec.d sets, SBOM sets, metadata; one bare result without env / exec.d / SBOMs} x {two type sets}, each preceded by {nothing, cache restore, launch-only restore (directory gone, toml kept), layer vanished, metadata rewritten in an unparsable shape}: call-back log (create/update exactly when due, create handed an empty directory), on-disk layer (types, metadata, env directories byte-equal to what the real writer produces for the returned env, exec.d programs, SBOM files, files written by the call-backs), returned LayerData equal to a fresh read, sibling layer untouched; non-trivial = sequences with a restore or corrupt step",
         &format!("depth {depth}"),
     );
     let mut steps = vec![];
     for pre in [Pre::Nothing, Pre::CacheRestore, Pre::LaunchOnlyRestore, Pre::Vanish, Pre::Corrupt] { for strat in [Strat::Keep, Strat::Update, Strat::Recreate] { for mig in [Mig::Recreate, Mig::Replace] {
         if pre != Pre::Corrupt && mig == Mig::Replace { continue; }
-        for payload in [0u8, 1] { steps.push(Step { pre, strat, mig, payload, types: if payload == 0 { 1 } else { 2 } }); }
+        for payload in [0u8, 1, 2] { steps.push(Step { pre, strat, mig, payload, types: if payload == 0 { 1 } else { 2 } }); }
     } } }
     let mut idx = vec![0usize; depth];
     loop {
@@ -145,9 +148,9 @@ fn run(seq: &[Step], r: &mut Report) {
                 for (d, has) in [("env", true), ("env.build", true), ("env.launch", true)] { if has && after.keys().any(|k| k.starts_with(d)) || want_env.keys().any(|k| k.starts_with(d)) { want_env.insert(PathBuf::from(d), "dir".into()); } }
                 let got_env: Tree = after.iter().filter(|(k, _)| k.starts_with("env") || k.starts_with("env.build") || k.starts_with("env.launch")).map(|(k, v)| (k.clone(), v.clone())).collect();
                 if got_env != want_env { fail("env", "the environment on disk (all four scopes) is exactly what the call-back returned", format!("{want_env:?}"), format!("{got_env:?}")); }
-                let want_execd: Tree = if p == 1 { [("exec.d", "dir"), ("exec.d/one", "file:[65]"), ("exec.d/two", "file:[66]")].iter().map(|(k, v)| (PathBuf::from(k), v.to_string())).collect() } else { [("exec.d", "dir"), ("exec.d/zero", "file:[66]")].iter().map(|(k, v)| (PathBuf::from(k), v.to_string())).collect() };
+                let want_execd: Tree = if p == 2 { Tree::new() } else if p == 1 { [("exec.d", "dir"), ("exec.d/one", "file:[65]"), ("exec.d/two", "file:[66]")].iter().map(|(k, v)| (PathBuf::from(k), v.to_string())).collect() } else { [("exec.d", "dir"), ("exec.d/zero", "file:[66]")].iter().map(|(k, v)| (PathBuf::from(k), v.to_string())).collect() };
                 if part(&after, "exec.d") != want_execd { fail("exec_d", "exec.d holds exactly the programs the call-back returned", format!("{want_execd:?}"), format!("{:?}", part(&after, "exec.d"))); }
-                let want_sboms: Vec<Option<Vec<u8>>> = if p == 1 { vec![Some(b"cdx-1".to_vec()), None, None] } else { vec![None, Some(b"spdx-0".to_vec()), Some(b"syft-0".to_vec())] };
+                let want_sboms: Vec<Option<Vec<u8>>> = if p == 2 { vec![None, None, None] } else if p == 1 { vec![Some(b"cdx-1".to_vec()), None, None] } else { vec![None, Some(b"spdx-0".to_vec()), Some(b"syft-0".to_vec())] };
                 if sboms != want_sboms { fail("sboms", "the SBOM files are exactly the ones the call-back returned", format!("{want_sboms:?}"), format!("{sboms:?}")); }
                 let want_meta = Meta { version: format!("v{p}"), checksum: format!("c{p}") };
                 if on_disk.as_ref().map(|l| &l.metadata) != Some(&want_meta) { fail("metadata", "the metadata on disk is what the call-back returned", format!("{want_meta:?}"), format!("{on_disk:?}")); }
